@@ -512,6 +512,77 @@ pub fn run(rep: &mut Rep) {
             rep.distinct(&("rf", off, f));
         }
     }
+    // ... and after each of those transport ends (or a server DISCONNECT with more data behind it in the same read) the same
+    // Context is given a fresh transport: whatever the dead connection had left unconsumed must not reach the new one
+    rep.note("second connection after the transport ended at every byte offset of the conversation (or after a server DISCONNECT followed by more data): connect() on a fresh transport returns the new CONNACK, run() serves, a ping completes");
+    for off in 0..=conv.len() + 1 {
+        let id = format!("fault:reconnect:{off}");
+        idx += 1;
+        if !rep.take(idx, &id) {
+            continue;
+        }
+        let mut su = setup(rep.seed, Phase::Running);
+        su.sim.log_enabled = true;
+        if off <= conv.len() {
+            su.sim.feed(&conv[..off]);
+            su.sim.settle();
+            if su.sim.run_result().is_none() {
+                if off % 2 == 0 {
+                    su.sim.set_eof();
+                } else {
+                    su.sim.set_read_err();
+                }
+                su.sim.settle();
+            }
+        } else {
+            // a server DISCONNECT and two more packets in one read
+            let mut b = SPacket::Disconnect { reason: 0x8b, props: vec![], form: 1 }.encode();
+            b.extend_from_slice(&SPacket::Pingresp.encode());
+            b.extend_from_slice(&[0x30, 0x05, 0x00]);
+            su.sim.feed(&b);
+            su.sim.settle();
+        }
+        rep.add("evaluations", 1);
+        rep.add("reconnections_after_transport_end", 1);
+        rep.distinct(&("reconnect", off));
+        if su.sim.run_result().is_none() {
+            // (reported by the read-fault cases above)
+            continue;
+        }
+        su.sim.new_transport();
+        su.sim.cmd(Cmd::Connect(ConnSpec::default()));
+        su.sim.settle();
+        su.sim.feed_packet(&SPacket::Connack { session_present: false, reason: 0, props: vec![] });
+        su.sim.settle();
+        let got = su.sim.ctx_results().last().cloned();
+        let mut bad = false;
+        for p in su.sim.panics.clone() {
+            rep.violation(&format!("C04/panic/{}/phase=second-connection", classify_panic(&p)), &id, &format!("{p}\n{}", su.sim.tail_log(20)));
+            bad = true;
+        }
+        match got {
+            Some(("connect", CtxOut::Conn(ConnOut::Connack(_)))) => {
+                su.sim.cmd(Cmd::Run);
+                su.sim.settle();
+                let p = su.sim.start_op(0, OpSpec::Ping);
+                su.sim.settle();
+                su.sim.feed_packet(&SPacket::Pingresp);
+                su.sim.settle();
+                // (pings left over from the first connection are answered first, in issue order)
+                su.sim.feed_packet(&SPacket::Pingresp);
+                su.sim.settle();
+                if su.sim.ops[p].out.is_none() || su.sim.run_result().is_some() {
+                    rep.violation("C04/wedge/second-connection-not-serving", &id, &format!("after the first connection ended {off} bytes into the conversation: ping on the new connection -> {:?}, run() = {:?}\n{}", su.sim.ops[p].out.as_ref().map(|o| o.brief()), su.sim.run_result(), su.sim.tail_log(20)));
+                    bad = true;
+                }
+            }
+            other => {
+                if !bad {
+                    rep.violation("C04/wedge/second-connect-does-not-return-the-connack", &id, &format!("after the first connection ended {off} bytes into the conversation, connect() on a fresh transport that delivered a whole CONNACK gave {:?}\n{}", other.map(|(c, o)| format!("{c}: {}", brief_ctx(&o))), su.sim.tail_log(20)));
+                }
+            }
+        }
+    }
     // write errors: at every offset of everything the client writes during set-up + conversation
     let total_written = {
         let mut su = setup(rep.seed, Phase::Running);
